@@ -33,6 +33,11 @@ LeavesOf(fam) ==
                           Obj(<<Prop("constructor", TString, FALSE), Prop("a", TString, FALSE)>>, <<>>),
                           Obj(<<Prop("__proto__", Obj(<<Prop("x", TNumber, FALSE)>>, <<>>), FALSE), Prop("a", TString, FALSE)>>, <<>>),
                           Obj(<<>>, <<Ix(TString, Obj(<<Prop("x", TNumber, FALSE)>>, <<>>))>>),
+                          \* intersections of object literals whose members carry doc comments (alone; on object-valued properties two members share)
+                          Inter(<<Deco("jsdocm", Obj(<<Prop("id", TString, FALSE)>>, <<>>)), Deco("jsdocm", Obj(<<Prop("name", TString, FALSE)>>, <<>>))>>),
+                          Inter(<<Obj(<<Prop("id", TString, FALSE)>>, <<>>), Deco("jsdocm", Obj(<<Prop("name", TString, TRUE)>>, <<>>))>>),
+                          Inter(<<Obj(<<Prop("n", Deco("jsdoc", Obj(<<Prop("x", TNumber, FALSE)>>, <<>>)), FALSE)>>, <<>>),
+                                  Obj(<<Prop("n", Deco("jsdoc", Obj(<<Prop("y", TNumber, FALSE)>>, <<>>)), FALSE)>>, <<>>)>>),
                           \* the empty object type, alone and as the value type of an index signature (digest: where an object ends)
                           Obj(<<>>, <<>>), Obj(<<>>, <<Ix(TString, Obj(<<>>, <<>>))>>)}
     [] fam = "tuple"  -> {TString, TNumber, LS("x"), Uni(<<TString, TUndef>>)}
